@@ -32,6 +32,7 @@ type slot struct {
 }
 
 type state struct {
+	glue    *glueState
 	pool    bool
 	bufSize int
 	cur     *slot
@@ -135,6 +136,9 @@ func (s *state) exec(f []string) string {
 		}
 		v, err := strconv.ParseUint(f[i], 10, 32)
 		return v, err == nil
+	}
+	if r, ok := s.execGlue(f); ok {
+		return r
 	}
 	// option numbers are uint16
 	if len(f) > 1 && f[0] != "setpath" && f[0] != "setloc" && f[0] != "addquery" && f[0] != "resetto" && f[0] != "resetself" && f[0] != "resetslice" {
